@@ -305,3 +305,74 @@ func corpusSpace(model string) *space {
 	}
 	return sp
 }
+
+// asaSharedGroupSpace: one object-group referenced from the ACLs of two
+// interfaces (once in the inside ACL, whose only line also varies in its log
+// attribute so that the whole ACL is replaced; in the outside ACL in any
+// sub-sequence of three lines, one of which names the group twice).  The
+// device may hold a second, identical group that the inside ACL uses (as
+// left by an interrupted run), and lists the two access-group lines in
+// either order.
+func asaSharedGroupSpace() *space {
+	outLines := []string{
+		"permit ip host 10.0.1.14 host 10.0.0.5",
+		"permit ip object-group %G object-group %G",
+		"permit tcp object-group %G host 10.0.1.9 eq 81",
+	}
+	sq := seqs(len(outLines), 0, 3)
+	n := int64(len(sq))
+	contents := []int{7, 5} // member masks over grpMembers
+	text := func(seq []int, log bool, mask int, sfx string, dup, outFirst bool) string {
+		var b strings.Builder
+		g := "g0" + sfx
+		gi := g
+		b.WriteString(groupText(g, mask))
+		if dup {
+			gi = "g0-DRC-1"
+			b.WriteString(groupText(gi, mask))
+		}
+		l := "access-list inside_in" + sfx + " extended permit tcp host 10.0.1.7 object-group " + gi
+		if log {
+			l += " log"
+		}
+		b.WriteString(l + "\n")
+		if dup {
+			// the replaced ACL of the interrupted run is still there, unbound
+			b.WriteString("access-list inside_in-DRC-9 extended permit tcp host 10.0.1.7 object-group " + g + " log\n")
+		}
+		for _, i := range seq {
+			gl := g
+			if dup && i == 2 {
+				gl = gi // the line added by the interrupted run
+			}
+			b.WriteString("access-list outside_in" + sfx + " extended " + strings.ReplaceAll(outLines[i], "%G", gl) + "\n")
+		}
+		in := "access-group inside_in" + sfx + " in interface inside\n"
+		out := ""
+		if len(seq) > 0 {
+			out = "access-group outside_in" + sfx + " in interface outside\n"
+		}
+		if outFirst {
+			b.WriteString(out + in)
+		} else {
+			b.WriteString(in + out)
+		}
+		return b.String()
+	}
+	sp := &space{name: "shared-group", model: "ASA", n: n * n * 32}
+	sp.gen = func(i int64) (core.Files, core.Files) {
+		bit := func() bool {
+			v := i%2 == 1
+			i /= 2
+			return v
+		}
+		dlog, tlog, other, dup, outFirst := bit(), bit(), bit(), bit(), bit()
+		dmask := contents[0]
+		if other {
+			dmask = contents[1]
+		}
+		return core.Files{Main: asaIntf + text(sq[i/n], dlog, dmask, "-DRC-0", dup, outFirst)},
+			core.Files{Main: text(sq[i%n], tlog, contents[0], "", false, false)}
+	}
+	return sp
+}
